@@ -35,15 +35,19 @@ type ledger struct {
 	Hashes                 map[uint64]string // voted height -> hash (append-only)
 	Tip                    uint64
 	Terminal               map[uint64]string // withdrawal id -> paid | refund (each id gets exactly one notice)
+	Credited               map[string]bool   // deposit outpoints ever owed (each is credited at most once)
 	Dup                    []string
 }
 
 func newLedger(tip uint64) *ledger {
-	return &ledger{Owed: map[string][]string{}, Delivered: map[string]int{}, Hashes: map[uint64]string{}, Tip: tip, Terminal: map[uint64]string{}}
+	return &ledger{Owed: map[string][]string{}, Delivered: map[string]int{}, Hashes: map[uint64]string{}, Tip: tip, Terminal: map[uint64]string{}, Credited: map[string]bool{}}
 }
 
 func (l *ledger) Clone() enga.Cloner {
-	c := &ledger{Owed: map[string][]string{}, Delivered: map[string]int{}, BridgeNonce: l.BridgeNonce, LockNonce: l.LockNonce, Seq: l.Seq, Hashes: map[uint64]string{}, Tip: l.Tip, Terminal: map[uint64]string{}}
+	c := &ledger{Owed: map[string][]string{}, Delivered: map[string]int{}, BridgeNonce: l.BridgeNonce, LockNonce: l.LockNonce, Seq: l.Seq, Hashes: map[uint64]string{}, Tip: l.Tip, Terminal: map[uint64]string{}, Credited: map[string]bool{}}
+	for k := range l.Credited {
+		c.Credited[k] = true
+	}
 	for k, v := range l.Terminal {
 		c.Terminal[k] = v
 	}
@@ -178,6 +182,11 @@ func c06Account(l *ledger, parent *c06Pre, child *enga.World, res *enga.Result) 
 				l.Tip = m.StartBlockNumber + uint64(len(m.BlockHash)) - 1
 			case *bitcointypes.MsgNewDeposits:
 				for _, d := range m.Deposits {
+					op := fmt.Sprintf("%x:%d", sim.DSHA(d.NoWitnessTx), d.OutputIndex)
+					if l.Credited[op] {
+						l.Dup = append(l.Dup, "deposit-owed-twice: outpoint "+op+" accepted again")
+					}
+					l.Credited[op] = true
 					v := int64(20000) + int64(d.TxIndex)
 					l.owe("deposit", fmt.Sprintf("%x:%d:%s:%s:%x", sim.DSHA(d.NoWitnessTx), d.OutputIndex, wei(v), wei(0), d.EvmAddress))
 				}
@@ -283,10 +292,12 @@ func c06Menu(thorough bool) []enga.ABlock {
 		{Abandon: 2, Events: []enga.Event{{Kind: "tx:hashes", N: 1}}},
 		{Restart: true},
 		{Events: []enga.Event{{Kind: "tx:approve", Var: "again"}}}, // late duplicate approval of refunded withdrawals
+		{Events: []enga.Event{{Kind: "tx:deposits", N: 2, Var: "twice-listed"}}},
 	}
 	m = append(m,
 		enga.ABlock{Events: []enga.Event{{Kind: "req:cancel"}}},
 		enga.ABlock{Events: []enga.Event{{Kind: "tx:approve"}}},
+		enga.ABlock{Events: []enga.Event{{Kind: "tx:approve", Var: "twice-listed"}}},
 	)
 	if thorough {
 		m = append(m,
@@ -388,7 +399,7 @@ func runC06(r *mc.Run) {
 		r.SetBudget(170 * 1e9)
 	}
 	r.Bounds["depth_blocks"] = depth
-	r.Rule = "tree search over block histories of the real application with queue-filling events (1/3 new block hashes, gap and rewrite batches, 9 deposits, 1+1 deposits, 9 withdrawals + 3 undecodable, process 9, finalize, 17 claims + 17 unlocks, failing execution-block message, 2 abandoned PrepareProposal rounds, restart); a reference ledger of owed items is compared with the system transactions of every finalised payload (FIFO per kind, caps, consecutive nonces, nothing dropped/duplicated/invented); every trace is drained with empty blocks; at every node with non-empty dues 9 mutations of the leading system transactions must be rejected by ProcessProposal and fail in FinalizeBlock"
+	r.Rule = "tree search over block histories of the real application with queue-filling events (1/3 new block hashes, gap and rewrite batches, 9 deposits, 1+1 deposits, a batch listing one deposit twice, an approval listing one id twice, 9 withdrawals + 3 undecodable, process 9, finalize, 17 claims + 17 unlocks, failing execution-block message, 2 abandoned PrepareProposal rounds, restart); a reference ledger of owed items is compared with the system transactions of every finalised payload (FIFO per kind, caps, consecutive nonces, nothing dropped/duplicated/invented); every trace is drained with empty blocks; at every node with non-empty dues 9 mutations of the leading system transactions must be rejected by ProcessProposal and fail in FinalizeBlock"
 	r.Assumptions = []string{"single validator = proposer of every block", "unlock amounts 1 wei, withdrawals 100000 sat paid 90000"}
 	var explore func(r *mc.Run, only []enga.ABlock)
 	explore = func(r *mc.Run, only []enga.ABlock) {
